@@ -17,15 +17,22 @@ use crate::elem::{self, Elem};
 use crate::exec::{guarded, mv_match, Caught, Out, World};
 use crate::types::*;
 
+/// The offset a lying `ExactSizeIterator::len()` adds on its `call`-th invocation (0-based).
+/// |lie| <= 2: the same offset every time. lie >= 10: an UNSTABLE liar, `UNSTABLE[lie - 10] = (first call, every later call)`.
+pub const UNSTABLE: [(i8, i8); 6] = [(0, 1), (0, -1), (1, 0), (-1, 0), (1, -1), (-1, 1)];
+pub fn lie_now(lie: i8, call: u32) -> i64 {
+    if lie >= 10 { let (first, later) = UNSTABLE[(lie - 10) as usize % UNSTABLE.len()]; (if call == 0 { first } else { later }) as i64 } else { lie as i64 }
+}
+
 /// Replacement iterator over pre-created values (no heap). `lie` offsets `ExactSizeIterator::len()`.
 /// `next()` is user code: it is a fault-injection point.
-pub struct ReplT<T> { items: [Option<T>; 4], pos: usize, n: usize, lie: i8 }
+pub struct ReplT<T> { items: [Option<T>; 4], pos: usize, n: usize, lie: i8, calls: std::cell::Cell<u32> }
 impl<T: Elem> ReplT<T> {
     pub fn new(n: usize, lie: i8) -> (Self, Vec<Mv>) {
         let mut items = [None, None, None, None];
         let mut ids = Vec::new();
         for i in 0..n { let v = T::fresh(); ids.push(Mv::Id(v.id())); items[i] = Some(v); }
-        (ReplT { items, pos: 0, n, lie }, ids)
+        (ReplT { items, pos: 0, n, lie, calls: std::cell::Cell::new(0) }, ids)
     }
 }
 impl<T> Iterator for ReplT<T> {
@@ -40,11 +47,11 @@ impl<T> Iterator for ReplT<T> {
     fn size_hint(&self) -> (usize, Option<usize>) { let l = self.len(); (l, Some(l)) }
 }
 impl<T> ExactSizeIterator for ReplT<T> {
-    fn len(&self) -> usize { let real = (self.n - self.pos) as i64; std::cmp::max(0, real + self.lie as i64) as usize }
+    fn len(&self) -> usize { let real = (self.n - self.pos) as i64; let c = self.calls.get(); self.calls.set(c + 1); std::cmp::max(0, real + lie_now(self.lie, c)) as usize }
 }
 
 /// Replacement iterator yielding `AnyValueRaw` pointing into caller-owned slots.
-pub struct ReplRaw<T> { base: *mut T, pos: usize, n: usize, lie: i8 }
+pub struct ReplRaw<T> { base: *mut T, pos: usize, n: usize, lie: i8, calls: std::cell::Cell<u32> }
 impl<T: 'static> Iterator for ReplRaw<T> {
     type Item = AnyValueRaw;
     fn next(&mut self) -> Option<AnyValueRaw> {
@@ -57,7 +64,7 @@ impl<T: 'static> Iterator for ReplRaw<T> {
     fn size_hint(&self) -> (usize, Option<usize>) { let l = self.len(); (l, Some(l)) }
 }
 impl<T: 'static> ExactSizeIterator for ReplRaw<T> {
-    fn len(&self) -> usize { let real = (self.n - self.pos) as i64; std::cmp::max(0, real + self.lie as i64) as usize }
+    fn len(&self) -> usize { let real = (self.n - self.pos) as i64; let c = self.calls.get(); self.calls.set(c + 1); std::cmp::max(0, real + lie_now(self.lie, c)) as usize }
 }
 
 pub fn range_valid(a: usize, b: usize, len: usize) -> bool { a <= b && b <= len }
@@ -310,7 +317,7 @@ impl<T: Elem + SatisfyTraits<Tr>, M: MX, Tr: TrX + ?Sized> World<T, M, Tr> {
                 // contiguous caller-owned slots
                 let mut store: [std::mem::MaybeUninit<T>; 4] = [const { std::mem::MaybeUninit::uninit() }; 4];
                 for i in 0..rn { let v = T::fresh(); repl_model.push(Mv::Id(v.id())); store[i].write(v); }
-                let it = ReplRaw::<T> { base: store.as_mut_ptr() as *mut T, pos: 0, n: rn, lie };
+                let it = ReplRaw::<T> { base: store.as_mut_ptr() as *mut T, pos: 0, n: rn, lie, calls: std::cell::Cell::new(0) };
                 let bb = vb.as_mut();
                 let va2 = &mut *va;
                 let r = guarded(move || { let mut d = mk_splice(va2, form, a, b, it); let o = drive_erased::<T, Tr, M, M::Aux, _>(&mut d, pat, sink, bb, sf); drop(d); o });
